@@ -230,6 +230,9 @@ def cases(rng, tier):
         else:
             c2['T'] = [[[[re * f, im * f] for re, im in row] for row in m] for m in c['T']]
         out.append(c2)
+    for c in out:
+        if c['kind'] == 'svd' and rng.random() < 0.2:
+            c['layout'] = rng.randrange(1, 4)
     # ---- malformed stream
     n_bad = {'quick': 18, 'thorough': 48, 'search': 0}[tier]
     for k in range(n_bad):
@@ -274,6 +277,9 @@ def impl(case):
         A = BC.mat_from_json(case['A'], case['cplx'])
         if case.get('dtype_int'):
             A = np.rint(A).astype(int)
+        if case.get('layout'):
+            import gen as G
+            A = G.relayout(A, case['layout'])      # Fortran order / non-contiguous view / negative strides: same values
         q0 = np.array(case['q0'], dtype=int)
         q1 = np.array(case['q1'], dtype=int)
         snap = (A.tobytes(), q0.tobytes(), q1.tobytes())
